@@ -1242,6 +1242,10 @@ def run(ctx):
     ctx.log('sites reached %d/%d (%d not reachable from the C API); steps %d' % (len(reached), len(inv['sites']), len(unreachable), steps))
     # ---------------- self-check of the generators: every operation family named by the property was enumerated with N >= 1
     if not ctx.replay:
+        fb = [c for _, c, _ in plan if 'fallback rungs' in c.get('tag', '') and c['N'] > 5]
+        ctx.notes['overlay_cases_running_the_fallback_rungs'] = len(fb)
+        if len(fb) < 3:
+            ctx.broken.append(dict(kind='generator', name='distribution', detail='fewer than 3 overlay cases whose floating-noding pass fails (gen/corpus/C14.jsonl): the polls of the OverlayNGRobust fallback rungs are not enumerated'))
         for grp, ops in REQUIRED_GROUPS.items():
             if not any(c['op'] in ops and c['N'] >= 1 for _, c, _ in plan):
                 ctx.broken.append(dict(kind='generator', name='distribution', detail='no enumerated case with >= 1 poll for operation family %r' % grp))
